@@ -16,6 +16,7 @@
           5 tag scan of ADFI_stridx_c over a non-terminated char array (stack)
           6 memcpy with negative length (ADFI_read_file)     7 the caller's data buffer (ADF_Read_All_Data)
           8 link_file[1025] / link_path[4097] (stack, ADFI_chase_link)
+          9 the caller's version[ADF_VERSION_LENGTH + 1] (ADF_Database_Version)
 
    The code exists in two states: as it was when C13 was first checked ([legacy]) and with the repairs of
    notes/C13-fixes/NN-*.diff applied ([repaired]).  Every repair is one switch of the record [fixes]; a function whose
@@ -33,6 +34,8 @@ Definition bytes := list Z.
 (* one switch per repair (notes/C13-fixes):
    fx_snt   01 sub-node table length must equal the header's entry count; num_sub_nodes <= entries_for_sub_nodes
    fx_dct   02 data-chunk table length must equal the header's number_of_data_chunks
+   fx_ver   20 ADF_Database_Version looks for the '>' that ends the version inside the 32 characters of the "what"
+               field (was: strcspn over the unterminated field and on into the rest of the header structure)
    fx_lfile, fx_lpath, fx_lnosep   the three output-side guards of repair 03, one switch each: file part <= 1024
                characters; path part behind a separator <= 4096; path of a payload WITHOUT separator <= 4096
    fx_link  03 (input side) ADF_Get_Link_Path / ADF_Link_Size: type exactly LK, one dimension, 1 <= length <= 5121 / file_bytes,
@@ -50,15 +53,15 @@ Definition bytes := list Z.
                data counts bytes of memory, not of the file *)
 Record fixes := { fx_snt : bool; fx_dct : bool; fx_link : bool; fx_nest : bool; fx_fmt : bool; fx_tag : bool;
                   fx_dtov : bool; fx_rtype : bool; fx_dim : bool; fx_short : bool; fx_sizes : bool; fx_rad : bool;
-                  fx_lfile : bool; fx_lpath : bool; fx_lnosep : bool }.
+                  fx_lfile : bool; fx_lpath : bool; fx_lnosep : bool; fx_ver : bool }.
 Definition legacy : fixes :=
   {| fx_snt := false; fx_dct := false; fx_link := false; fx_nest := false; fx_fmt := false; fx_tag := false;
      fx_dtov := false; fx_rtype := false; fx_dim := false; fx_short := false; fx_sizes := false; fx_rad := false;
-     fx_lfile := false; fx_lpath := false; fx_lnosep := false |}.
+     fx_lfile := false; fx_lpath := false; fx_lnosep := false; fx_ver := false |}.
 Definition repaired : fixes :=
   {| fx_snt := true; fx_dct := true; fx_link := true; fx_nest := true; fx_fmt := true; fx_tag := true;
      fx_dtov := true; fx_rtype := true; fx_dim := true; fx_short := true; fx_sizes := true; fx_rad := true;
-     fx_lfile := true; fx_lpath := true; fx_lnosep := true |}.
+     fx_lfile := true; fx_lpath := true; fx_lnosep := true; fx_ver := true |}.
 
 Inductive out (A : Type) : Type :=
 | Ok (a : A) | Err (code : Z) | OOBW (site : Z) | OOBR (site : Z) | Uninit | Stale | Abort | UB | Ext | OutOfFuel.
